@@ -1,15 +1,15 @@
 #!/bin/bash
-# Runs every mutant in /verif/mutants/INDEX.txt (and the hand-made ones) against the properties it
-# is expected to break; prints one line per (mutant, property): CAUGHT / MISSED.
+# Runs every mutant in /verif/mutants/INDEX.txt against the properties it is expected to break;
+# prints one line per (mutant, property): CAUGHT / MISSED.
 tier="${1:-quick}"
-idx=/verif/mutants/INDEX.txt
-{ cat "$idx"; echo "revert_D4_root_rescan: expected to break C06 C26 C17"; } | while IFS= read -r line; do
+while IFS= read -r line; do
     name="${line%%:*}"
-    props="${line##*break }"
+    props=$(echo "${line##*break }" | grep -oE "C[0-9]{2}" | tr '\n' ' ')
+    [ -z "$props" ] && { echo "SKIP $name (no property expected to break)"; continue; }
     out=$(/verif/tools/run_mutant.sh "$name" "$tier" $props 2>&1)
     echo "$out" | grep -E "^== " | while read -r _ m p t e; do
         code="${e#exit=}"
         if [ "$code" = "1" ]; then echo "CAUGHT $m $p"; else echo "MISSED $m $p (exit $code)"; fi
     done
     echo "$out" | grep -E "^violation:" | head -2 | cut -c1-260 | sed 's/^/    /'
-done
+done < /verif/mutants/INDEX.txt
